@@ -274,7 +274,7 @@ def cargo_check(scr, name, reqs, target_dir, jobs):
     d = scr.crate(name, reqs)
     t = time.time()
     rc, out = core.sh(["cargo", "check", "--offline", "-j", str(jobs), "--message-format", "short"], cwd=d, timeout=2400,
-                      env={"CARGO_TARGET_DIR": target_dir, "RUSTFLAGS": ""})
+                      env={"CARGO_TARGET_DIR": target_dir, "RUSTFLAGS": "", "CARGO_INCREMENTAL": "0", "CARGO_PROFILE_DEV_DEBUG": "0"})
     errs = [l for l in out.splitlines() if re.search(r"\berror(\[E\d+\])?:", l)]
     if rc == 0:
         return "ok", [], time.time() - t
@@ -451,7 +451,7 @@ def custom_run(pid, tier, seed, replay=None):
                     more = dict(zip(extra_from_model, core.run_lines(zmodel, extra_from_model)))
                     mt.update(more)
                     bcases = dd(extra_from_model + bcases)
-            lanes = 3 if tier == "quick" else 4
+            lanes = 2 if tier == "quick" else 4
             bi = run_builds(scr, bcases, lanes)
             for c in bcases:
                 m, s, k = (mt[c].split("\t") + ["-", "-"])[:3]
